@@ -4,6 +4,7 @@ Driver ops for the document parser model (C09).
 import Driver.TPCodec
 import Driver.PGCodec
 import TableauVerif.Model.DocParser
+import TableauVerif.Spec.C12Doc
 namespace Driver
 open TableauVerif TableauVerif.Model TableauVerif.Model.XmlDoc TableauVerif.Model.TableParser
 
@@ -49,6 +50,11 @@ def doc (fn : String) (a : List String) : Option String := do
       match DocParser.parse c d (BNode.mk .map [] [] [root]) with
       | .ok m => some ("ok " ++ " ".intercalate (encValRunes (.msg m)))
       | .error e => some (if e.code == unmodelledCode then "unmodelled" else s!"err {e.code}")
+    | _ => none
+  | "o.doc.parse", [_opts, desc, tree, obs] =>
+    let d ← decTDescArg? desc
+    match parseBNodes tree.toList [] with
+    | some ([root], []) => some (Spec.C12Doc.verdict d root (obs.startsWith "err"))
     | _ => none
   | _, _ => none
 
